@@ -876,7 +876,7 @@ func execSQL(c Case) [][][]string {
 	if l := cfgGet(c, "latesink"); len(l) > 0 {
 		late, _ = strconv.Atoi(l[0])
 	}
-	opts := []streamsql.Option{streamsql.WithDiscardLog()}
+	opts := []streamsql.Option{presetOpt(), streamsql.WithDiscardLog()}
 	if late > 0 {
 		opts = append(opts, streamsql.WithBufferSizes(1000, 1, 50))
 	}
